@@ -328,6 +328,8 @@ def run(ctx):
                 ctx.violation("ivpadj/tuple-state/%s" % method, "solve_ivp(%s) with a list-of-tensors state on the %s grid: %s" % (method, gname, why), {"method": method, "grid": gname})
     from vlib import gradpattern
     ctx.replayed = gradpattern.replay(ctx, ["solve_ivp"], "ivpadj")
+    from vlib import bckhistory
+    ctx.replayed += bckhistory.replay(ctx, ["solve_ivp"], "ivpadj", 3)
     ctx.samples.append(traces[0])
     ctx.notes.update(runs=len(traces), probe_runs=sum(1 for t_ in traces if t_["cfg"]["probe"]), segment_events=sum(1 for t_ in traces for e in t_["ev"] if e["a"] == "seg"))
     ctx.assumptions += [
